@@ -196,6 +196,13 @@ def replay(spec):
             fails.append('dt=%g: noise matrix != integral of the propagated noise density (max diff %.3g)' % (dt, np.abs(Qd - Qref).max()))
         if not np.allclose(Qd, Qd.T, atol=1e-13):
             fails.append('dt=%g: noise matrix not symmetric' % dt)
+    # linear in the noise density at every scale (the property covers all PSD Q, singular and tiny included)
+    Pb, Qb = kalman.compute_process_matrices(F, Q, 0.05)
+    for sc in (1e-8, 1e-14, 1e-20, 1e-30, 1e8):
+        Ps, Qs = kalman.compute_process_matrices(F, Q * sc, 0.05)
+        if not np.allclose(Qs, Qb * sc, rtol=1e-9, atol=1e-13 * sc * max(1e-300, np.abs(Qb).max())):
+            fails.append('noise matrix is not linear in the noise density: Q scaled by %g gives max |Qd| %.3g instead of %.3g' % (sc, np.abs(Qs).max(), np.abs(Qb * sc).max()))
+            break
     P1, Q1 = kalman.compute_process_matrices(F, Q, 0.1)
     P2, Q2 = kalman.compute_process_matrices(F, Q, 0.25)
     P3, Q3 = kalman.compute_process_matrices(F, Q, 0.35)
